@@ -7,11 +7,12 @@ import re
 from harness import common as C
 from harness import c07_gen as G
 from harness import c07_dispatch as D
+from harness import c07_fw as F
 
 META = {
     "id": "C07",
-    "technique": "Coq proof (induction over line lists: _strip_inline_comment vs Python's comment rule, _collect_block vs Python's block rule, round trip of the block-skeleton parser over every layout of the re-layout relation; reflection over the translator-generated line-accounting table) + extracted-model correspondence with the real lexical functions, header regexes and the recorded _parse_simple_lines call tree + CPython tokenize/ast validation of the specification + re-layout metamorphism and line-accounting oracles on the real parse()+emit() with the REDUINO_VERIF hook",
-    "level_text": "Theorems C07_* (coq/Props/C07.v) are proved for all line lists about a Gallina model of the lexical layer of parser.py (Lang/Lex.v) against a hand-written model of Python's layout rules (Lang/PyLayout.v, validated against CPython's tokenizer and ast on every run). Block extent and comment stripping are proved inside explicit guards and refuted outside them by concrete witnesses (mixed tabs, '#' in a triple-quoted literal); comment-only lines at any column, trailing comments on column-0 headers and on elif/else/except are inside the guards since the repair of the comment handling (fixed findings, replayed on every run); the line-accounting table (69 statement kinds x 4 contexts) is regenerated from the current parser and checked by computation against the fixed set of the property plus the listed gaps; `continue` left the listed gaps with the repair of the parser (fixed finding, replayed on every run) and is pinned: translated in a for/while loop and at the level of the main loop, rejected outside any loop. The model is run against the real functions on enumerated and generated inputs; the property's own relations (same firmware across layouts; no unlisted line disappears) are evaluated on the real transpiler.",
+    "technique": "Coq proof (induction over line lists: _strip_inline_comment vs Python's comment rule, _collect_block vs Python's block rule, round trip of the block-skeleton parser over every layout of the re-layout relation; reflection over the translator-generated line-accounting table) + extracted-model correspondence with the real lexical functions, header regexes and the recorded _parse_simple_lines call tree + CPython tokenize/ast validation of the specification + re-layout metamorphism and line-accounting oracles on the real parse()+emit() with the REDUINO_VERIF hook + Coq model of the control-flow part of _emit_block / emit() with a C++ compound-statement reader as specification (induction over IR trees: the firmware's block tree and the conditions every line runs under are Python's) + block-structure oracle on the real firmware",
+    "level_text": "Theorems C07_* (coq/Props/C07.v) are proved for all line lists about a Gallina model of the lexical layer of parser.py (Lang/Lex.v) against a hand-written model of Python's layout rules (Lang/PyLayout.v, validated against CPython's tokenizer and ast on every run). Block extent and comment stripping are proved inside explicit guards and refuted outside them by concrete witnesses (mixed tabs, '#' in a triple-quoted literal); comment-only lines at any column, trailing comments on column-0 headers and on elif/else/except are inside the guards since the repair of the comment handling (fixed findings, replayed on every run); the line-accounting table (69 statement kinds x 4 contexts) is regenerated from the current parser and checked by computation against the fixed set of the property plus the listed gaps; `continue` left the listed gaps with the repair of the parser (fixed finding, replayed on every run) and is pinned: translated in a for/while loop and at the level of the main loop, rejected outside any loop. The firmware side (Lang/EmitBlocks.v): _emit_block's treatment of IfStatement / WhileLoop / ForRangeLoop / TryStatement and the function / setup / loop sections of emit() are modelled line by line; read the way C++ groups lines into compound statements, the emitted lines are proved to be one stanza per branch, loop and handler around exactly its own lines (C07_emit_block_structure, C07_sketch_sections_structure), and - composed with the grouping of the lexical skeleton into IR nodes and with C07_roundtrip_partial - the compound statements of the firmware and the conditions each line runs under are proved to be those of Python's block tree for every layout inside the guard (C07_firmware_blocks_are_pythons_partial, C07_layout_to_firmware_partial, C07_firmware_paths_are_pythons_partial); the statement layer enters these theorems as arbitrary functions. The model is run against the real functions on enumerated and generated inputs; the property's own relations (same firmware across layouts; no unlisted line disappears; every control header of the script is in the firmware once and every numbered statement / break / continue / return runs in the function and under the chain of conditions Python gives it) are evaluated on the real transpiler.",
     "level_note": "Trusted: Coq kernel, translator harness/gen/dispatch.py (black-box observation of parse+emit), extraction, OCaml driver, CPython tokenize/ast as 'what Python means'. Theorems are about the model; statement-level dispatch (the regex chain inside a line) is observed, not modelled.",
     "design_ref": "DESIGN.md section 4 C07, Appendix B.5",
 }
@@ -130,11 +131,22 @@ def run(ctx: C.Ctx):
     progs = []
     for i in range(n_prog):
         progs.append(G.gen_program(rng, maxdepth=rng.choice([1, 2, 3, 3, 4])))
+    # bodies that emit no device code (any block kind), chains of up to 5 elif, break / bare return:
+    # shapes the property quantifies over and the batch above (almost) never draws
+    n_hollow = 150 if thorough else 30
+    G.OPTS.update({"hollow": 0.35, "max_elifs": 5, "jumps": True})
+    try:
+        for i in range(n_hollow):
+            progs.append(G.gen_program(rng, maxdepth=rng.choice([2, 3, 3, 4])))
+    finally:
+        G.OPTS.update({"hollow": 0.0, "max_elifs": 2, "jumps": False})
+    n_random = len(progs)
+    progs += G.systematic_programs()          # exhaustive small chains / try / loops over {device statement, pass, print}
     inguard = []       # (prog index, unit, ltops, final junk, lines)
     for pi, tops in enumerate(progs):
         lt, fj = G.canonical(tops)
         inguard.append((pi, "    ", lt, fj, G.render(lt, fj, "    ")))
-        for j in range(n_lay):
+        for j in range(n_lay if pi < n_prog else 2):
             u = rng.choice(G.UNITS)
             dens = rng.choice([0.15, 0.35, 0.6])
             sp = rng.choice([0.0, 0.5, 0.9])
@@ -217,6 +229,41 @@ def run(ctx: C.Ctx):
         if pi in base and base[pi][0] is lines and r.get("exc"):
             ctx.fail("a script of the supported subset in canonical layout is rejected", {"script": lines}, "accepted", r.get("exc"), key="canonical-rejected")
 
+    # ---- oracle C: the block structure of the FIRMWARE is Python's (every control header of the script once, every
+    # numbered statement and every break/continue/return under the conditions and in the function/phase Python puts
+    # it - for a member of an if chain: its own condition and the negation of every earlier one), canonical layout
+    n_items = 0
+    struct_kinds = {}
+    struct_fail = []
+    for pi in sorted(base):
+        lines, r = base[pi]
+        if r.get("exc") or r.get("cpp") is None:
+            continue
+        want = F.py_items(progs[pi])
+        evaluations += 1
+        n_items += len(want)
+        for p_, it in want:
+            kname = "stmt" if it[0] == "stmt" else it[0] + ":" + str(it[1])
+            struct_kinds[kname] = struct_kinds.get(kname, 0) + 1
+            if len(p_) > 1:
+                nontrivial.add(("struct", pi, repr(p_), repr(it)))
+        verdict = _structure_verdict(progs[pi], r["cpp"])
+        if verdict is not None:
+            struct_fail.append((len(lines), pi, verdict[0]))
+    reported = set()
+    for _, pi, key in sorted(struct_fail):          # smallest failing script first, one report per class
+        if key in reported:
+            continue
+        reported.add(key)
+        tops = _shrink_structure(progs[pi], key)
+        lt, fj = G.canonical(tops)
+        lines = G.render(lt, fj, "    ")
+        r = C.run_impl("c07_impl.py", {"cases": [["trace", lines]]})[0]
+        key, what, exp, obs = _structure_verdict(tops, r["cpp"])
+        ctx.fail(what, {"script": lines, "firmware": [l for _, h, b in F.sections(r["cpp"]) for l in [h] + b + ["}"]]}, exp, obs, key=key)
+    dist["block_structure_items"] = struct_kinds
+    dist["hollow_bodies"] = _count_hollow(progs)
+
     # ================================================================ 2. model vs code: call tree of _parse_simple_lines
     n_trace = 0
     if have_model:
@@ -246,6 +293,90 @@ def run(ctx: C.Ctx):
                 ctx.disagree("generated layout is outside the Coq guard top_layout_ok", [u, lines], o13[1], 1)
             if o10[1] != want:
                 ctx.disagree("parse_top of an in-guard layout is not the skeleton (round trip)", lines, o10[1], want)
+
+    # ================================================================ 2b. the emitter: model vs code, spec reader vs its Python twin
+    n_emit = 0
+    ir_dist = {}
+    leaf_out = C.run_impl("c07_impl.py", {"cases": [["leaflines", sp] for sp in F.LEAF_SPECS]})
+    leaf_lines = {repr(sp): (o["lines"] or []) for sp, o in zip(F.LEAF_SPECS, leaf_out)}
+    ir_cases = []
+    for i in range(1200 if thorough else 250):
+        ir_cases.append((rng.choice(F.INDENTS), F.gen_ir(rng, rng.choice([1, 2, 3, 4]), rng.choice([0.0, 0.3, 0.6]))))
+    ir_cases += [(ind, [t]) for ind in ("", "  ") for t in _ir_boundary()]
+    for _, trees in ir_cases:
+        F.ir_stats(trees, ir_dist)
+    eb = C.run_impl("c07_impl.py", {"cases": [["emitblock", ind, trees] for ind, trees in ir_cases]}, timeout=3000)
+    if have_model:
+        m14 = ctx.model([[14, ind, [F.enc_ir(t, leaf_lines) for t in trees]] for ind, trees in ir_cases])
+        for (ind, trees), r, m in zip(ir_cases, eb, m14):
+            n_emit += 1
+            ml = texts(m[1])
+            if r["exc"] or r["lines"] != ml:
+                ctx.disagree("_emit_block on an IR control skeleton (lines written for if/elif/else, while, for, try/catch)", [ind, trees], ml, r["lines"] if not r["exc"] else r["exc"])
+            elif m[2] == 1 and F.dec_ctrees(m[3], C.wstr) != F.c_read(r["lines"]):
+                ctx.disagree("SPEC c_read (Coq) vs its Python twin on emitted lines", r["lines"], F.dec_ctrees(m[3], C.wstr), F.c_read(r["lines"]))
+            if any(t[0] != "leaf" for t in trees):
+                nontrivial.add(("ir", ind, repr(trees)))
+        # whole sketches from hand-built IR: sections of emit()
+        plain = [sp for sp in F.LEAF_SPECS if sp[0] != "ButtonDecl"]       # emit() hoists device declarations into setup()
+        sk_cases = [(F.gen_ir(rng, 2, 0.4, plain), F.gen_ir(rng, 2, 0.4, plain), [["fn0", F.gen_ir(rng, 2, 0.5, plain)], ["fn1", []]]) for _ in range(60 if thorough else 15)]
+        sk_cases.append(([], [], [["fn0", []]]))
+        sk = C.run_impl("c07_impl.py", {"cases": [["emitprog", a, b, fns] for a, b, fns in sk_cases]}, timeout=3000)
+        for (a, b, fns), r in zip(sk_cases, sk):
+            n_emit += 1
+            if r["exc"]:
+                ctx.disagree("emit() on a hand-built Program", [a, b, fns], "a sketch", r["exc"])
+                continue
+            secs = F.sections(r["cpp"])
+            want_secs = [n for n, _ in fns] + ["setup", "loop"]
+            if [n for n, _, _ in secs] != want_secs:
+                ctx.disagree("sections of the sketch (one per function, then setup, loop)", [a, b, fns], want_secs, [n for n, _, _ in secs])
+                continue
+            m = ctx.model([[14, "  ", [F.enc_ir(t, leaf_lines) for t in trees]] for trees in [f[1] for f in fns] + [a, b]])
+            for (name, hdr, body), mo in zip(secs, m):
+                # setup()/loop() also hold what emit() hoists (none here: no device is declared) and a placeholder comment when empty
+                got = [l for l in body if l.strip() and not l.strip().startswith("//")]
+                if got != texts(mo[1]):
+                    ctx.disagree(f"body of section {name} of the sketch vs emit_list at one indentation step", [a, b, fns], texts(mo[1]), got)
+        # the spec reader on every real firmware of the canonical layouts
+        fw_secs = []
+        for pi in sorted(base):
+            r = base[pi][1]
+            if r.get("cpp"):
+                fw_secs += [b for _, _, b in F.sections(r["cpp"])]
+        m15 = ctx.model([[15, b] for b in fw_secs])
+        for b, mo in zip(fw_secs, m15):
+            n_emit += 1
+            if F.dec_ctrees(mo[1], C.wstr) != F.c_read(b):
+                ctx.disagree("SPEC c_read (Coq) vs its Python twin on a firmware section", b, F.dec_ctrees(mo[1], C.wstr), F.c_read(b))
+        # script -> lexical skeleton -> IR -> compound statements (model) vs the compound statements of the real firmware
+        c16, meta16 = [], []
+        for pi in sorted(base):
+            lines, r = base[pi]
+            if r.get("exc") or not r.get("cpp"):
+                continue
+            secs = {n: b for n, _, b in F.sections(r["cpp"])}
+            for name, nodes, where in _py_sections(progs[pi]):
+                tabs = _tables(nodes, where)
+                if tabs is None:
+                    continue
+                snippet = []
+                for n in G.canonical([("chain", nodes)])[0][0][1]:
+                    snippet += G.render_node(n, "    ", 0)
+                c16.append([16, snippet] + tabs)
+                meta16.append((lines, name, secs.get(name, []), F.marks_of(progs[pi])))
+        m16 = ctx.model(c16)
+        for (lines, name, body, marks), mo in zip(meta16, m16):
+            n_emit += 1
+            want = _drop_plain(F.dec_ctrees([mo[2]], C.wstr))
+            got = _norm_fw(F.c_read(body) or [], marks)
+            if mo[1] != 1:
+                ctx.disagree("generated script is outside the Coq guard chain_ok", [name, lines], mo[1], 1)
+            elif want != got:
+                ctx.disagree(f"compound statements of {name}(): py_cs (model: parse_lines -> to_ir -> what Python's block tree prescribes) vs the real firmware",
+                             lines, want, got)
+        evaluations += n_emit
+    dist["emitter_ir_nodes"] = ir_dist
 
     # ================================================================ 3. lexical functions called directly
     icases = indent_cases(rng, thorough)
@@ -413,6 +544,9 @@ def run(ctx: C.Ctx):
                  "lexical: exhaustive strings over {a,blank,#,',\",\\} up to length 5 (6 thorough) and over {blank,tab,x,#,FF,NBSP,U+3000} up to length 3 (4), "
                  "realistic lines, every start index of generated scripts for the three span functions, header texts with near-misses. "
                  "accounting: one probe per (69 kinds x 4 contexts) with and without the probe line. "
+                 f"firmware block structure: the programs above plus {n_hollow} random programs in which every body (if / elif / else / while / for / try / except / def / main loop) is, with probability 0.35, made only of lines of the fixed set (pass, print, docstring, import), with chains of up to 5 elif and with break / bare return, plus an exhaustive family (every if chain of 1-3 branches and optional else, every try with 1-2 handlers, every loop, with bodies over {{device statement, pass, print}}, at column 0 / in the main loop / in a function / in a for body); "
+                 "oracle C compares, per function of the sketch, the multiset of (path, item) - items: control headers, numbered statements, break / continue / return; path: function, enclosing loops / try / catch, and for a member of an if chain its own condition and the negated earlier ones - computed from the skeleton and from the firmware read with the C++ reader; the smallest failing script per class is shrunk by removing statements while the real transpiler still fails. "
+                 "emitter: random IR control skeletons (depth <= 4, bodies empty with probability 0 / 0.3 / 0.6, 11 leaf node kinds incl. one that emits nothing and one that opens its own block, 5 indentations) plus all 81+8 placements of empty / line-less / non-empty bodies in a 3-branch chain, through the real _emit_block and the extracted emit_list (lines equal), whole hand-built Programs through the real emit() (sections), the extracted C++ reader against its Python twin on every emitted block and every real firmware section, and py_cs of the model (parse_lines -> to_ir) against the compound statements of the real firmware of every generated program. "
                  "non-trivial = a layout differing from the canonical one / a line the stripper changes / a non-empty span / a header text some regex matches."),
         "samples": samples,
         "distribution": {**dist, "programs": n_prog, "inguard_layouts": len(inguard), "perturbed_scripts": len(perturbed), "relayout_pairs": n_pairs,
@@ -422,10 +556,14 @@ def run(ctx: C.Ctx):
         "guard": ("layouts: indentation of statements by one unit string (spaces or tabs, not mixed; comment-only lines at any column, any white space); "
                   "one physical line per statement (no continuation, no ';', no multi-line literal); no '#' inside triple-quoted literals; optional spacing only "
                   "around operators, inside call parentheses, before the header colon, after keywords (not between a callee and '(', not around '.', "
-                  "not if(/while(/elif( without a blank, not `range (`). accounting: statement kinds outside DispatchSpec.known_gaps."),
+                  "not if(/while(/elif( without a blank, not `range (`). accounting: statement kinds outside DispatchSpec.known_gaps. "
+                  "firmware block structure: simple statements whose C++ lines are closed pieces (every block they open they close: leaf_ok), elif/else only after if/elif and except only after try/except (chain_ok - Python's grammar); "
+                  "an `else` whose body yields no IR node is not written by the emitter - it cannot change what runs, the oracle accepts it present or absent; numbered statements are mon.write / x = / sleep lines."),
         "unmodelled": ["line continuation (backslash, open brackets) and multi-line string literals",
                        "the statement dispatch chain inside a line (regexes of _parse_simple_lines after block detection): observed through the generated table and the hook, not modelled in Coq",
                        "target(...) lines (captured before block detection)",
+                       "the C++ lines a simple (non-control) node is emitted as: leaves of the IR model carry them as given (taken from the real emitter in the correspondence); hoisting of declarations / pinMode into setup() by emit(); variable promotion nodes the parser inserts before a block",
+                       "C++ compound statements are read line-wise (a line ending in `{` opens, a line `}` closes): braces inside string literals or several statements per line are outside the reader - the emitter writes one statement per line",
                        "non-ASCII identifier characters in header regexes (\\w is modelled for ASCII)",
                        "optional spacing inside a statement: checked by the re-layout oracle on the real transpiler only",
                        "round trip at the level of parse() (column-0 headers, main loop, def, import filter; guard Layout.top_layout_ok): measured on every generated layout (model parse_top of the rendered layout = skeleton); proved are the round trip for snippets handed to _parse_simple_lines (C07_roundtrip_partial) and, at column 0, that a trailing comment on a line changes nothing of what parse() builds (C07_header_trailing_comment_invisible)"],
@@ -436,6 +574,248 @@ def run(ctx: C.Ctx):
     })
     ctx.assumptions += ["one physical line = one logical line (no continuation lines, no multi-line literals) in every theorem about blocks",
                         "Python's layout rules as modelled in Lang/PyLayout.v (validated against CPython tokenize/ast on every run)"]
+
+
+def _structure_verdict(tops, cpp):
+    """None, or (class key, what, expected, observed) when the firmware does not have the script's block structure"""
+    want = F.py_items(tops)
+    got, problem = F.fw_items(cpp, F.marks_of(tops))
+    if got is None:
+        return ("firmware-unbalanced", "the emitted firmware is not a sequence of closed compound statements",
+                "balanced braces in every function", problem)
+    if want == got:
+        return None
+    missing, extra = _msdiff(want, got), _msdiff(got, want)
+    kind = (missing or extra)[0][1]
+    return ("block-structure:" + str(kind[0]) + (":" + str(kind[1]) if kind[0] != "stmt" else ""),
+            "the firmware does not have the block structure of the script: a control-flow header is missing/added, or a statement "
+            "runs under other conditions (or in another function / phase) than Python gives it",
+            {"only in the script (path, item)": F.show(missing)}, {"only in the firmware (path, item)": F.show(extra)})
+
+
+def _msdiff(a, b):
+    """multiset difference a - b"""
+    pool = {}
+    for x in b:
+        pool[repr(x)] = pool.get(repr(x), 0) + 1
+    out = []
+    for x in a:
+        if pool.get(repr(x), 0) > 0:
+            pool[repr(x)] -= 1
+        else:
+            out.append(x)
+    return out
+
+
+def _shrink_structure(tops, key, budget=1500):
+    """greedy: drop one top-level item / one node at a time (a body that would become empty keeps a `pass`) while the
+    real transpiler still shows a failure of the same class"""
+    def is_prelude(t):
+        return t[0] == "imp" or (t[0] == "chain" and t[1] and t[1][0][0] == "leaf" and t[1][0][1] in G.PRELUDE)
+
+    def variants(tops):
+        pre = [t for t in tops if is_prelude(t)]
+        rest = [t for t in tops if not is_prelude(t)]
+        if len(rest) > 1:
+            for t in rest:                              # big steps first: one top-level item alone
+                yield pre + [t]
+            for i in range(len(rest)):
+                yield pre + rest[:i] + rest[i + 1:]
+        for i, t in enumerate(tops):
+            if t[0] == "chain" and not is_prelude(t):
+                for ns in node_variants(t[1], top=True):
+                    if ns:
+                        yield tops[:i] + [("chain", ns)] + tops[i + 1:]
+            elif t[0] in ("main", "def"):
+                for ns in node_variants(t[2]):
+                    yield tops[:i] + [(t[0], t[1], ns)] + tops[i + 1:]
+
+    def node_variants(ns, top=False):
+        heads = [i for i, n in enumerate(ns) if not (n[0] == "block" and n[1] in G.CONT)]
+        if len(heads) > 1:
+            for a_, i in enumerate(heads):             # one statement (with its elif/else/except) alone
+                j = heads[a_ + 1] if a_ + 1 < len(heads) else len(ns)
+                yield ns[i:j]
+        for i, n in enumerate(ns):
+            if n[0] == "block" and n[1] in ("if", "try") and i + 1 < len(ns) and ns[i + 1][0] == "block" and ns[i + 1][1] in G.CONT:
+                pass                                   # the head of a chain cannot go while its continuation stays
+            else:
+                rest = ns[:i] + ns[i + 1:]
+                yield rest if (rest or top) else [("leaf", "pass", ("allowed", "pass"))]
+            if n[0] == "block":
+                for b in node_variants(n[3]):
+                    yield ns[:i] + [(n[0], n[1], n[2], b)] + ns[i + 1:]
+
+    while budget > 0:
+        lt0, fj0 = G.canonical(tops)
+        size0 = sum(len(l) + 1 for l in G.render(lt0, fj0, "    "))
+        cands = []
+        for c in variants(tops):                      # strictly smaller scripts only: the search terminates
+            lt, fj = G.canonical(c)
+            if sum(len(l) + 1 for l in G.render(lt, fj, "    ")) < size0:
+                cands.append(c)
+            if len(cands) >= 500:
+                break
+        found = None
+        for at in range(0, len(cands), 25):          # big steps come first
+            chunk = cands[at: at + 25]
+            budget -= len(chunk)
+            scripts = []
+            for c in chunk:
+                lt, fj = G.canonical(c)
+                scripts.append(G.render(lt, fj, "    "))
+            rs = C.run_impl("c07_impl.py", {"cases": [["trace", l] for l in scripts]}, timeout=3000)
+            for c, r in zip(chunk, rs):
+                if r.get("exc") or not r.get("cpp"):
+                    continue
+                v = _structure_verdict(c, r["cpp"])
+                if v is not None and v[0] == key:
+                    found = c
+                    break
+            if found is not None or budget <= 0:
+                break
+        if found is None:
+            break
+        tops = found
+    return tops
+
+
+def _count_hollow(progs):
+    """per block kind: bodies that consist only of lines of the fixed set / all bodies"""
+    c = {}
+
+    def body(kind, b):
+        c[kind] = c.get(kind, 0) + 1
+        if all(n[0] == "leaf" and n[2][0] == "allowed" for n in b):
+            c[kind + ":hollow"] = c.get(kind + ":hollow", 0) + 1
+        for n in b:
+            if n[0] == "block":
+                body(n[1], n[3])
+    for tops in progs:
+        for t in tops:
+            if t[0] == "chain":
+                for n in t[1]:
+                    if n[0] == "block":
+                        body(n[1], n[3])
+            elif t[0] in ("main", "def"):
+                body(t[0], t[2])
+    # hollow NON-FIRST branch followed by another branch with device work: the shape of an `else if` that must stay
+    k = 0
+
+    def chains(ns):
+        nonlocal k
+        for i, n in enumerate(ns):
+            if n[0] == "block":
+                if n[1] == "elif" and all(m[0] == "leaf" and m[2][0] == "allowed" for m in n[3]) and i + 1 < len(ns) \
+                        and ns[i + 1][0] == "block" and ns[i + 1][1] in ("elif", "else"):
+                    k += 1
+                chains(n[3])
+    for tops in progs:
+        for t in tops:
+            chains(t[1] if t[0] == "chain" else t[2] if t[0] in ("main", "def") else [])
+    c["hollow_elif_followed_by_branch"] = k
+    return c
+
+
+def _ir_boundary():
+    """hand-picked IR shapes: every position of an empty body"""
+    w = ["leaf", ["SerialWrite", "mon", "7"]]
+    z = ["leaf", ["ButtonDecl", "btn", 2]]        # a node that emits no line
+    out = []
+    for bodies in itertools.product([[], [w], [z]], repeat=3):
+        for els in ([], [w], [z]):
+            out.append(["if", [["(a)", bodies[0]], ["(b)", bodies[1]], ["(c)", bodies[2]]], els])
+    out += [["if", [["(a)", []]], []], ["if", [], [w]], ["if", [], []], ["while", "(a)", []], ["for", "i", 0, []],
+            ["try", [], []], ["try", [], [[None, None, []]]], ["try", [w], [["E", "e", []], [None, "t", [w]], ["", "", []]]]]
+    return out
+
+
+def _py_sections(tops):
+    """(firmware function name, nodes, where) for the parts of a skeleton that end up in one function"""
+    setup = []
+    out = []
+    for t in tops:
+        if t[0] == "chain":
+            setup += t[1]
+        elif t[0] == "main":
+            out.append(("loop", t[2], "main"))
+        elif t[0] == "def":
+            out.append((F.RE_PY_DEF.match(G.canon_spacing(t[1])).group(1), t[2], "def"))
+    return [("setup", setup, "top")] + out
+
+
+def _tables(nodes, where):
+    """what the statement layer does, as far as the block structure can see it: the lines of the fixed set become no
+    node, a numbered statement a line @k, break/continue/return their C++ statement, anything else a line #"""
+    tr, cx, fv, fn, ex = {}, {}, {}, {}, {}
+    meanings = set()
+
+    def walk(ns, loop):
+        for n in ns:
+            if n[0] == "leaf":
+                t, meta = G.canon_spacing(n[1]), n[2]
+                if meta[0] == "allowed":
+                    tr[t] = []
+                elif meta[0] == "mark":
+                    tr[t] = [["@" + str(meta[1])]]
+                elif meta[0] == "continue":
+                    meanings.add(meta[1])
+                    tr[t] = [["continue;" if meta[1] == "loop" else "return;"]]
+                elif meta[0] == "jump":
+                    tr[t] = [[meta[1]]]
+                else:
+                    tr[t] = [["#"]]
+                continue
+            h = G.canon_spacing(n[2])
+            if n[1] in ("if", "elif", "while"):
+                cx[h] = F.norm(h[len(n[1]):].rstrip()[:-1])
+            elif n[1] == "for":
+                m = F.RE_PY_FOR.match(h)
+                fv[h], fn[h] = m.group(1), m.group(2)
+            elif n[1] == "except":
+                m = F.RE_PY_EXCEPT.match(h)
+                ex[h] = F.catch_text(m.group(1), m.group(2))
+            walk(n[3], loop)
+    walk(nodes, where)
+    # `continue` means two different things in one main-loop body (inside a for/while: continue; directly: return;):
+    # a table keyed by statement text cannot say both - such bodies are compared by the oracle only
+    if len(meanings) > 1:
+        return None
+    return [[[k, v] for k, v in tr.items()], [[k, v] for k, v in cx.items()], [[k, v] for k, v in fv.items()],
+            [[k, v] for k, v in fn.items()], [[k, v] for k, v in ex.items()]]
+
+
+def _drop_plain(trees):
+    out = []
+    for t in trees or []:
+        if t[0] == 0:
+            if t[1] != "#":
+                out.append(t)
+        else:
+            out.append([1, t[1], _drop_plain(t[2])])
+    return out
+
+
+def _norm_fw(trees, marks):
+    out = []
+    for t in trees:
+        if t[0] == 0:
+            s = t[1]
+            if s in ("continue;", "break;", "return;"):
+                out.append([0, s])
+            elif F.MARK_LINE.match(s):
+                for tok in re.findall(r"(?<![\w.])\d+(?![\w.])", s):
+                    if int(tok) in marks:
+                        out.append([0, "@" + tok])
+            continue
+        h = t[1]
+        m = F.RE_C_ELIF.match(h) or F.RE_C_IF.match(h) or F.RE_C_WHILE.match(h)
+        if m:
+            out.append([1, h[: m.start(1)] + F.norm(m.group(1)) + ")", _norm_fw(t[2], marks)])
+        elif h in ("else", "try") or F.RE_C_FOR.match(h) or F.RE_C_CATCH.match(h):
+            out.append([1, h, _norm_fw(t[2], marks)])
+        # any other block is one some simple statement opened itself: not part of the script's structure
+    return out
 
 
 def _ign_key(e):
